@@ -88,7 +88,8 @@ void frequent_items_sketch<T, W, H, E, A>::merge(frequent_items_sketch&& other) 
 
 template<typename T, typename W, typename H, typename E, typename A>
 bool frequent_items_sketch<T, W, H, E, A>::is_empty() const {
-  return map.get_num_active() == 0;
+  // a purge can remove every tracked item: such a sketch still carries total weight and error and is not empty
+  return map.get_num_active() == 0 && total_weight == 0;
 }
 
 template<typename T, typename W, typename H, typename E, typename A>
@@ -376,7 +377,7 @@ frequent_items_sketch<T, W, H, E, A> frequent_items_sketch<T, W, H, E, A>::deser
     // batch deserialization with intermediate array of items and weights
     using AllocW = typename std::allocator_traits<A>::template rebind_alloc<W>;
     std::vector<W, AllocW> weights(num_items, 0, allocator);
-    ptr += copy_from_mem(ptr, weights.data(), sizeof(W) * num_items);
+    if (num_items > 0) ptr += copy_from_mem(ptr, weights.data(), sizeof(W) * num_items);
     A alloc(allocator);
     std::unique_ptr<T, items_deleter> items(alloc.allocate(num_items), items_deleter(num_items, false, alloc));
     const size_t bytes_remaining = size - (ptr - base);
